@@ -207,27 +207,16 @@ def run(ctx):
         nr = norm(L['next']['result'])
         if c[0] == 'discr' and c[1] == nr:
             return ('loop',)
-        neq = lambda a, b: [call('core::cmp::PartialEq::ne', a, b), call('core::cmp::PartialEq::ne', b, a)]
-        for p in neq(call('board::Board::piece_on', ('param', 1), SRC), V('x')):
-            m = match(p, c)
-            if m is not None:
-                return ('piece', not tv, m['x'])
-        for p in neq(call('square::Square::get_rank', SRC), V('x')):
-            m = match(p, c)
-            if m is not None:
-                return ('rank', not tv, m['x'])
-        for p in neq(call('square::Square::get_file', SRC), V('x')):
-            m = match(p, c)
-            if m is not None:
-                return ('file', not tv, m['x'])
-        for p in neq(call('chess_move::ChessMove::get_dest', M), V('x')):
-            m = match(p, c)
-            if m is not None:
-                return ('dest', not tv, m['x'])
-        for p in neq(call('chess_move::ChessMove::get_promotion', M), V('x')):
-            m = match(p, c)
-            if m is not None:
-                return ('promo', not tv, m['x'])
+        if c[0] == 'call' and len(c[2]) == 2 and 'PartialEq' in c[1] and (c[1].endswith('::ne') or c[1].endswith('::eq')):
+            is_ne = c[1].endswith('::ne')
+            equal = (not tv) if is_ne else tv
+            getters = (('piece', call('board::Board::piece_on', ('param', 1), SRC)), ('rank', call('square::Square::get_rank', SRC)),
+                       ('file', call('square::Square::get_file', SRC)), ('dest', call('chess_move::ChessMove::get_dest', M)),
+                       ('promo', call('chess_move::ChessMove::get_promotion', M)))
+            for a_, b_ in ((c[2][0], c[2][1]), (c[2][1], c[2][0])):
+                for kind_, pat in getters:
+                    if match(pat, a_) is not None:
+                        return (kind_, equal, b_)
         m = match(call('core::option::Option::<T>::is_some', V('x')), c)
         if m is not None and m['x'] == FOUND:
             return ('found', tv)
@@ -246,7 +235,16 @@ def run(ctx):
     if not ds or len(ds) > 400:
         ctx.inconclusive('C12.R4', 'reaching condition of the accepting store not enumerable (%d disjuncts)' % len(ds))
         return
-    cds = [[classify(g) for g in conj] for conj in ds]
+    def about_candidate(v):
+        # a named boolean that is computed from the candidate move (e.g. `let matches_spec = .. && ..;`)
+        from ..expr import expand_var
+        d = expand_var(v)
+        return d is not v and any(x == M for x in walk(norm(d)))
+    cds = [[classify(g) for g in alt] for conj in ds for alt in expand_conj(conj, open_var=about_candidate)]
+    opaque = [l for cl in cds for l in cl if l[0] == 'other' and any(isinstance(x, tuple) and x and x[0] == 'closure' for x in walk(l[2]))]
+    if opaque:
+        ctx.inconclusive('C12.R4', 'a candidate filter is expressed through a closure (`map_or`, `map`, ..) and is not analysed: ' + sh(opaque[0][2], 160))
+        return
     # R4 filters
     bad = []
     comps = {}
@@ -479,14 +477,26 @@ def run(ctx):
         ms = match(call('square::Square::make_square', rk, ENUM('file::File', 'E')), m['s'])
         md = match(call('square::Square::make_square', rk, V('f')), m['d'])
         okv = False
-        if ms is not None and md is not None and md['f'][0] == 'ite':
-            cases = dict(md['f'][2])
-            cn = norm(md['f'][1])
-            lit = [a[1] for a in cn[2] if a[0] == 'str'] if cn[0] == 'call' else []
-            if lit == ['O-O'] and cases.get('otherwise') == ENUM('file::File', 'G') and cases.get(0) == ENUM('file::File', 'C'):
+        if ms is not None and md is not None:
+            # the destination file as a function of the (suffix-stripped) text: evaluate it for the two castling texts
+            fexpr = push_proj(md['f'])
+            got = {}
+            foreign = []
+            for text in ('O-O', 'O-O-O'):
+                def decide(c_, vals, text=text):
+                    cn = norm(c_)
+                    if cn[0] == 'call' and 'PartialEq' in cn[1] and (cn[1].endswith('::eq') or cn[1].endswith('::ne')):
+                        lit = [a[1] for a in cn[2] if a[0] == 'str']
+                        if len(lit) == 1:
+                            return as_bool((lit[0] == text) == cn[1].endswith('::eq'), vals)
+                    foreign.append(cn)
+                    return None
+                got[text] = set(l for l in eval_tree(fexpr, decide) if l != ('never',))
+            if not foreign and got['O-O'] == {ENUM('file::File', 'G')} and got['O-O-O'] == {ENUM('file::File', 'C')}:
                 okv = True
-            if lit == ['O-O-O'] and cases.get('otherwise') == ENUM('file::File', 'C') and cases.get(0) == ENUM('file::File', 'G'):
-                okv = True
+            elif foreign:
+                ctx.inconclusive('C12.R6', 'castling destination file depends on something other than the castling text: ' + sh(foreign[0], 160))
+                continue
         if okv:
             ctx.ok('C12.R6', 'castling denotes king e-file -> g-file (O-O) / c-file (O-O-O) on the mover\'s back rank', where(body, st['line']))
         else:
